@@ -14,4 +14,26 @@ CHECKS = {
     },
 }
 
+CHECKS["C15"] = {
+    "subs": [
+        {"pkg": "pure", "test": "TestC15Select", "quick": 20000, "thorough": 800000, "shards_quick": 6, "shards_thorough": 12},
+        {"pkg": "pure", "test": "TestC15Balancer", "quick": 10000, "thorough": 400000, "shards_quick": 4, "shards_thorough": 8},
+        {"pkg": "pure", "test": "TestC15Concurrent", "quick": 3000, "thorough": 100000, "shards_quick": 4, "shards_thorough": 8},
+    ],
+    "engine": "PURE",
+    "level_text": "Stateful property-based tests on the real LoadBalancedManager and its round-robin helper against an ordered-membership model: every selection is a currently registered upstream of exactly that endpoint, non-forwardable requests never get a remote node, every window of n selections over a stable set is a permutation, and a concurrent variant checks selections against registration intervals on a logical clock. Exploration only.",
+    "technique": "model-based stateful PBT (rapid), window-permutation oracle, interval-overlap oracle for concurrent runs",
+    "assumptions": ["each upstream object is registered at most once (as the upstream handler does)"],
+}
+CHECKS["C12"] = {
+    "subs": [
+        {"pkg": "pure", "test": "TestC12Phi", "quick": 20000, "thorough": 1500000, "shards_quick": 8, "shards_thorough": 16},
+        {"pkg": "pure", "test": "TestC12PrefixIndependence", "quick": 5000, "thorough": 300000, "shards_quick": 4, "shards_thorough": 8},
+    ],
+    "engine": "PURE",
+    "level_text": "Property-based test of the arrival window and the detector map against an exact rational reference (math/big) over generated arrival sequences up to 5x the window length, plus direct accuracy/completeness bounds and a metamorphic prefix-independence relation. Exploration only.",
+    "technique": "differential PBT against an exact-arithmetic reference + metamorphic relation (rapid)",
+    "assumptions": ["arrival timestamps strictly increase (wall clock in production)", "float comparison tolerance 1e-9 relative"],
+}
+
 NOT_APPLICABLE = {}
